@@ -13,6 +13,7 @@ import (
 
 	sgbucket "github.com/couchbase/sg-bucket"
 	"github.com/couchbase/sync_gateway/base"
+	"github.com/couchbase/sync_gateway/channels"
 )
 
 // C09 correspondence + monitors: import / own-write detection on a real collection (rosmar, xattrs, AutoImport off).
@@ -25,6 +26,9 @@ import (
 //   gdel     gateway tombstone (Put with _deleted)
 //   meta     gateway metadata-only rewrite (ResyncDocument with regenerateSequences)
 //   read     gateway GetDocument (on-demand import)
+//   legacy b  a document as an older gateway version wrote it: body {"v":b}, valid _sync / _vv, and attachment metadata
+//            still inside _sync (raw datastore WriteWithXattrs with the gateway's macro expansions; only when absent).
+//            The import listener migrates that metadata (MigrateAttachmentMetadata) when it is handed such an event.
 //   feed k   delivery of the feed event for the document version that existed after op k (0 = before op 1)
 //            through importListener.ImportFeedEvent (ImportFromFeed)
 //   race g n x   gateway op g, with op x executed when the n-th WriteUpdateWithXattrs callback of g completes
@@ -49,6 +53,8 @@ func (o c09Op) coq() string {
 		return "SdkTouch"
 	case "put":
 		return "(GwWrite " + cqI(o.B) + ")"
+	case "legacy":
+		return "(LegacyWrite " + cqI(o.B) + ")"
 	case "gdel":
 		return "GwDelete"
 	case "meta":
@@ -64,7 +70,7 @@ func (o c09Op) coq() string {
 }
 func (o c09Op) String() string {
 	switch o.K {
-	case "set", "put":
+	case "set", "put", "legacy":
 		return fmt.Sprintf("%s%d", o.K, o.B)
 	case "feed":
 		return fmt.Sprintf("feed%d", o.I)
@@ -102,6 +108,7 @@ type c09Obs struct {
 	SeqUp   bool // _sync.sequence differs from the previous observation of a sequence
 	Imports int  // ImportCount delta during the op
 	Fired   bool // race ops: the interposed op was executed (the gateway op reached its n-th update callback)
+	Att     bool // _sync still carries (pre-4.0) attachment metadata
 	seq     uint64
 	cas     uint64
 	revs    map[int]string
@@ -112,9 +119,9 @@ func (o c09Obs) coq() string {
 	for _, r := range o.Hist {
 		hs = append(hs, fmt.Sprintf("(R %d %d %s %d)", c09Nat(r.Gen), c09Nat(r.Parent), cqBool(r.Deleted), r.Body))
 	}
-	return fmt.Sprintf("(O %d %d %s %d %s %s %s %s %s %s %s %s %s %d %d %d %d %s %d %s)", o.St, o.Body, cqBool(o.HasSync), c09Nat(o.Cur), cqList(hs),
+	return fmt.Sprintf("(O %d %d %s %d %s %s %s %s %s %s %s %s %s %d %d %d %d %s %d %s %s)", o.St, o.Body, cqBool(o.HasSync), c09Nat(o.Cur), cqList(hs),
 		cqBool(o.FCas), cqBool(o.FCrc), cqBool(o.HasVV), cqBool(o.FCv), cqBool(o.FCvCas), cqBool(o.HasMou), cqBool(o.FMou), cqBool(o.FPcas),
-		o.VFull, o.VDoc, o.VXattr, o.Res, cqBool(o.SeqUp), o.Imports, cqBool(o.Fired))
+		o.VFull, o.VDoc, o.VXattr, o.Res, cqBool(o.SeqUp), o.Imports, cqBool(o.Fired), cqBool(o.Att))
 }
 
 // unparsable revision ids give negative generations: keep the Coq term well-formed (and mismatching)
@@ -256,6 +263,7 @@ func (e *c09Env) observe(key string, prev *c09Obs) c09Obs {
 		cv = rh
 		var sd SyncData
 		if err := base.JSONUnmarshal(sx, &sd); err == nil {
+			o.Att = sd.AttachmentsPre4dot0 != nil
 			isSG, _, _ := sd.IsSGWrite(e.ctx, s.cas, s.body, nil, cv)
 			o.VFull = c09b2i(isSG)
 			x, amb := sd.IsSGWriteXattrOnly(e.ctx, s.cas, s.tomb, nil, cv)
@@ -355,6 +363,40 @@ func (e *c09Env) exec(key string, op c09Op, events []c09Snap) int {
 	case "del":
 		if err := e.raw.Delete(e.ctx, key); err != nil {
 			return 2
+		}
+		return 0
+	case "legacy":
+		if s := e.snap(key); s.exists {
+			return 3
+		}
+		body := c09Body(op.B)
+		rev := CreateRevIDWithBytes(1, "", body)
+		seq, err := e.db.sequences.nextSequence(e.ctx)
+		if err != nil {
+			return 9
+		}
+		ver := base.CasToString(uint64(1700000000000000000) + seq<<16)
+		sd := SyncData{
+			RevAndVersion:       channels.RevAndVersion{RevTreeID: rev, CurrentSource: e.db.EncodedSourceID, CurrentVersion: ver},
+			Sequence:            seq,
+			RecentSequences:     []uint64{seq},
+			History:             RevTree{rev: &RevInfo{ID: rev}},
+			AttachmentsPre4dot0: AttachmentsMeta{"a.txt": map[string]any{"digest": "sha1-Kq5sNclPz7QV2+lfQIuc6R7oRu0=", "length": 3, "revpos": 1, "stub": true}},
+			Cas:                 expandMacroCASValueString,
+			Crc32c:              "0x00000000",
+		}
+		rawSync, err := base.JSONMarshal(sd)
+		if err != nil {
+			return 9
+		}
+		rawVV := []byte(fmt.Sprintf(`{"cvCas":"0x0","src":%q,"ver":%q}`, e.db.EncodedSourceID, ver))
+		opts := &sgbucket.MutateInOptions{MacroExpansion: append(macroExpandSpec(base.SyncXattrName),
+			sgbucket.NewMacroExpansionSpec(xattrCurrentVersionCASPath(base.VvXattrName), sgbucket.MacroCas))}
+		if _, err := e.raw.WriteWithXattrs(e.ctx, key, 0, 0, body, map[string][]byte{base.SyncXattrName: rawSync, base.VvXattrName: rawVV}, nil, opts); err != nil {
+			if e.debug {
+				fmt.Printf("    legacy write error: %v\n", err)
+			}
+			return 9
 		}
 		return 0
 	case "touch":
@@ -546,6 +588,17 @@ func TestVerifC09(t *testing.T) {
 			}
 		}
 	}
+	// legacy documents: every sequence of 3 ops after the legacy write, feed1 being the (delayed) event of that write
+	leg := []string{"set2", "del", "touch", "put3", "meta", "read", "feedL", "feedP", "feed1"}
+	c09Enum(leg, 3, func(toks []string) { e.runCase("exhaustive-legacy", c09Resolve(append([]string{"legacy1"}, toks...))) })
+	for _, pre := range []string{"legacy1", "legacy1 set2", "legacy1 touch"} {
+		for _, g := range []string{"put3", "meta", "read", "feed1", "feedL"} {
+			for _, x := range []string{"set4", "del", "touch", "read", "feed1", "feedL"} {
+				toks := append(strings.Fields(pre), fmt.Sprintf("race:%s:1:%s", g, x), "feed1", "read", "feedL")
+				e.runCase("exhaustive-race", c09Resolve(toks))
+			}
+		}
+	}
 	rec.Extra("exhaustive", true)
 
 	// ---- (c) random: structured stream (mostly plain ops, feed indices near the end) and adversarial stream (races, stale
@@ -554,6 +607,9 @@ func TestVerifC09(t *testing.T) {
 	for i := 0; i < nStruct; i++ {
 		n := 4 + rnd.Intn(9)
 		var ops []c09Op
+		if rnd.Chance(30) {
+			ops = append(ops, c09Op{K: "legacy", B: 1 + rnd.Intn(c09NBodies)})
+		}
 		for len(ops) < n {
 			ops = append(ops, c09RandOp(rnd, len(ops), false))
 		}
@@ -563,6 +619,9 @@ func TestVerifC09(t *testing.T) {
 	for i := 0; i < nAdv; i++ {
 		n := 3 + rnd.Intn(8)
 		var ops []c09Op
+		if rnd.Chance(30) {
+			ops = append(ops, c09Op{K: "legacy", B: 1 + rnd.Intn(c09NBodies)})
+		}
 		for len(ops) < n {
 			ops = append(ops, c09RandOp(rnd, len(ops), true))
 		}
@@ -607,6 +666,16 @@ var c09Corpus = []string{
 	"put1 set2 race:read:1:del read",
 	"put1 del race:read:1:set3 read",
 	"put1 gdel del race:read:1:del read",
+	// documents whose attachment metadata still sits in _sync: the import listener migrates it when it sees the
+	// gateway-write event, guarded by that event's cas (delayed events must not stamp a later external write)
+	"legacy1 read feed1 read feed1 feed2",
+	"legacy1 set2 feed1 read",
+	"legacy1 set2 feed1 feed2 feed1 read",
+	"legacy1 touch feed1 feed2 read set3 feed1 feed2 feed4 read",
+	"legacy1 del feed1 feed2 read",
+	"legacy1 put2 feed1 meta feed1",
+	"legacy1 race:feed1:1:set2 read",
+	"set1 legacy2 read",
 }
 
 // enumerate all token sequences of exactly n symbols
@@ -850,6 +919,18 @@ func (e *c09Env) monitors(ops []c09Op, obs []c09Obs, desc map[string]any) bool {
 				e.rec.Fail("import_parent_generation_body", "import-revision-shape", in(i), fmt.Sprintf("bucket st=%d body=%d cur=%d hist %v -> %v", prev.St, prev.Body, prev.Cur, prev.Hist, o.Hist))
 			}
 		}
+		// an external write is never turned into an "own write" by anything but an import (in particular not by the
+		// attachment-metadata migration handed a delayed gateway-write event)
+		if op.K != "race" && gw && !(o.Res == 0 && (g.K == "put" || g.K == "gdel")) {
+			pending := prev.St != 0 && ((prev.HasSync && prev.VFull == 0) || (!prev.HasSync && prev.St == 1))
+			if pending && o.Imports == 0 && o.HasSync && o.VFull == 1 {
+				sig := "external-write-stamped-as-own"
+				if prev.Att && g.K == "feed" {
+					sig = "external-write-stamped-as-own-by-migration"
+				}
+				e.rec.Fail("import_only_way_to_own", sig, in(i), fmt.Sprintf("%s: bucket st=%d body=%d was a pending external write; now recognised as gateway write without import (hist %v)", g.String(), prev.St, prev.Body, o.Hist))
+			}
+		}
 		if o.Imports > 1 && op.K != "race" {
 			e.rec.Fail("import_once", "double-import", in(i), fmt.Sprintf("imports=%d in one op", o.Imports))
 		}
@@ -931,6 +1012,9 @@ func c09ParseOp(tok string) c09Op {
 	case strings.HasPrefix(tok, "put"):
 		o.K = "put"
 		fmt.Sscanf(tok[3:], "%d", &o.B)
+	case strings.HasPrefix(tok, "legacy"):
+		o.K = "legacy"
+		fmt.Sscanf(tok[6:], "%d", &o.B)
 	case strings.HasPrefix(tok, "feed"):
 		o.K = "feed"
 		fmt.Sscanf(tok[4:], "%d", &o.I)
